@@ -116,6 +116,18 @@ def spec_le(a, b):
 # ------------------------------------------------------------------------------------------------
 
 
+def _type_cache_of(f):
+    """the class-level dictionary in which family `f` keeps its lazily created parametrised classes - found by
+    shape, not by its (private, compiler-chosen) attribute name: the only own dict attribute of the class"""
+    own = [(k, v) for k, v in vars(f).items() if isinstance(v, dict) and not k.startswith("__")]
+    if len(own) == 1:
+        return own[0][1]
+    named = [v for k, v in own if k == "_SubTypes"]
+    if len(named) == 1:
+        return named[0]
+    raise InfraError(f"cannot identify the subtype cache of {f.__name__}: own dict attributes {[k for k, _ in own]}")
+
+
 def _hist_task(item):
     actions, model_line = item
     import_cohdl()
@@ -128,7 +140,7 @@ def _hist_task(item):
     D = Port.Direction
     DIR = {"in": D.INPUT, "out": D.OUTPUT, "inout": D.INOUT}
     fams = [BitVector, Unsigned, Signed, Array, Signal, Port, Variable, Temporary]
-    pre = [len(f._SubTypes) for f in fams]
+    pre = [len(_type_cache_of(f)) for f in fams]
     if any(pre):
         raise InfraError(f"type caches are not empty in a fresh interpreter: {pre}")
     ROOT = {"object": object, "primType": _PrimitiveType, "bit": Bit, "boolean": _Boolean, "integer": Integer,
@@ -309,11 +321,11 @@ def _hist_task(item):
     if len(id2cls) != len(m_cls) and not diffs:
         diffs.append(("count", False, f"model has {len(m_cls)} classes, {len(id2cls)} reachable in the implementation"))
     # ---- caches
-    cnt = [len(f._SubTypes) for f in fams]
+    cnt = [len(_type_cache_of(f)) for f in fams]
     if cnt != m_cnt:
         diffs.append(("cache-count", False, f"cache sizes {cnt}, model {m_cnt}"))
     for f in fams:
-        for v in f._SubTypes.values():
+        for v in _type_cache_of(f).values():
             if id(v) not in cls2id:
                 diffs.append(("cache-count", False, f"cache of {f.__name__} holds a class the model does not know"))
                 break
